@@ -60,7 +60,7 @@ def one_pass(tier, esm, verdicts, stats):
                      env={"VERIF_CFG": cfg_path, "VERIF_TRACE": obs_path}, timeout=3000,
                      tags=("BAD", "DRIFT"), metatag="c08a" + tag)
     vlib.tlc_must_succeed(a, "Trace_Paths " + tag)
-    if a.distinct != len(obs):
+    if a.distinct != len(obs) + 1:
         raise vlib.ToolError("adjudication consumed %d of %d records" % (a.distinct, len(obs)))
     bad = sorted(set(a.payloads("BAD")))
     drift = sorted(set(a.payloads("DRIFT")))
